@@ -86,6 +86,32 @@ pub fn run_case(doc: &[u8], lit_start: usize, kind: &str) -> String {
             Ok(m) => s_hex(m.keys().next().map(|k| k.as_str())),
             Err(_) => "R".into(),
         });
+        // "the result does not depend on what was decoded before": the same lookup when an earlier member name of the object
+        // has escapes of its own (one scratch buffer serves all names of an object), and the literal as a byte string after
+        // another escaped string went through the same deserializer
+        ep!("getkey2", {
+            match serde_json::from_slice::<String>(&doc[..lit_end]) {
+                Ok(k) if k != "e\n1\t\"q" => {
+                    let mut kd2 = b"{\"e\\n1\\t\\\"q\":[\"x\"],\"p\":1,".to_vec();
+                    kd2.extend_from_slice(&doc[..lit_end]);
+                    kd2.extend_from_slice(b":30}");
+                    match sonic_rs::get(&kd2[..], &[k.as_str()]) {
+                        Ok(lv) => format!("F:{}", hex(lv.as_raw_str().as_bytes())),
+                        Err(_) => "N".into(),
+                    }
+                }
+                _ => "skip".into(),
+            }
+        });
+        if let Ok(sdoc) = std::str::from_utf8(&doc[..lit_end]) {
+            ep!("bytes2", {
+                let t = format!("[\"a\\nb\\u00e9\",{}]", sdoc);
+                match sonic_rs::from_str::<(String, serde_bytes::ByteBuf)>(&t) {
+                    Ok((_, b)) => format!("S:{}", hex(&b)),
+                    Err(_) => "R".into(),
+                }
+            });
+        }
         ep!("getkey", {
             // the lazy `get` compares the decoded key (parse_string_raw): look the key up by the
             // reference decoding of serde_json
